@@ -9,6 +9,18 @@ sys.path.insert(0, os.path.dirname(__file__))
 import core  # noqa: E402
 import checks_c  # noqa: E402
 
+if sys.argv[1] == "--single":
+    # one workload alone in this fresh process: stdin = JSON {cfg, stmts (tokens)}
+    import json
+
+    import checks
+
+    req = json.loads(sys.stdin.read())
+    cfg = core.Cfg(**{k: (tuple(v) if k == "flow" and v is not None else v) for k, v in req["cfg"].items()})
+    stmts = [checks.parse_stmt_tok(t) for t in req["stmts"]]
+    print(checks_c.run_alone(cfg, stmts).hex())
+    sys.exit(0)
+
 seed, n = int(sys.argv[1]), int(sys.argv[2])
 r = random.Random(seed * 7919 + 17)
 h = hashlib.sha256()
